@@ -20,7 +20,8 @@ Record ptables := {
   t_multi : list Z;                         (* the literal list in allowsMultiple *)
   t_private : list (list Z);                (* privateVars of __setattr__ *)
   t_groups : list (list (list Z) * Z * list Z); (* value checks of __setattr__: (names, kind, params) *)
-  t_npackets : Z                            (* len(PacketTypes.Names), indexed by the error message below *)
+  t_npackets : Z;                           (* len(PacketTypes.Names), indexed by the error message below *)
+  t_each : bool                             (* the value checks run for every element of an assigned list *)
 }.
 
 Inductive passign := One (v : pval) | Many (l : list pval).
@@ -87,6 +88,17 @@ Fixpoint range_check (groups : list (list (list Z) * Z * list Z)) (cn : list Z) 
       else range_check r cn v
   end.
 
+(* for item in (value if isinstance(value, list) else [value]): <chain> - the first failing item raises *)
+Fixpoint range_check_all (groups : list (list (list Z) * Z * list Z)) (cn : list Z) (l : list pval) : res unit :=
+  match l with
+  | [] => Ok tt
+  | v :: r => bind (range_check groups cn v) (fun _ => range_check_all groups cn r)
+  end.
+
+(* the items the checks look at (an older source skipped lists: t_each = false) *)
+Definition checked_items (T : ptables) (a : passign) : list pval :=
+  match a with One v => [v] | Many l => if t_each T then l else [] end.
+
 (* setattr(props, name, value) on an object of packet type pt.
    Raise 0 = the name is one of the object's own attributes (packetType/types/names/properties):
    Python replaces that table; this is outside the model. *)
@@ -104,7 +116,7 @@ Definition setattr (T : ptables) (pt : Z) (st : pstate) (name : list Z) (a : pas
              IndexError when the packet type is not an index of Names (e.g. WILLMESSAGE = 99) *)
           if (- t_npackets T <=? pt) && (pt <? t_npackets T) then Raise 3 else Raise 6
         else
-          bind (match a with One v => range_check (t_groups T) cn v | Many _ => Ok tt end) (fun _ =>
+          bind (range_check_all (t_groups T) cn (checked_items T a)) (fun _ =>
           if allows_multiple T cn then
             let l := match a with One v => [v] | Many l => l end in
             match assoc id st with
@@ -223,8 +235,6 @@ Definition read_int16 (buf : list Z) : res Z :=
 Definition read_int32 (buf : list Z) : res Z :=
   match buf with a :: b :: c :: d :: _ => Ok (((a * 256 + b) * 256 + c) * 256 + d) | _ => Raise 9 end.
 
-Definition feff : list Z := [239; 187; 191].
-
 (* readUTF(buffer, maxlen): the decoded text (as UTF-8 bytes) and the bytes used *)
 Definition read_utf (buf : list Z) (maxlen : Z) : res (list Z * Z) :=
   if maxlen <? 2 then Raise 4
@@ -235,7 +245,6 @@ Definition read_utf (buf : list Z) (maxlen : Z) : res (list Z * Z) :=
       let s := firstn (Z.to_nat len) (skipn 2 buf) in
       if negb (utf8_valid s) then Raise 1            (* UnicodeDecodeError *)
       else if memz 0 s then Raise 4                  (* "[MQTT-1.5.4-2] Null found" *)
-      else if infixb feff s then Raise 4             (* "[MQTT-1.5.4-3] U+FEFF in UTF-8 data" *)
       else Ok (s, len + 2)).
 
 (* readBytes: no check that `length` bytes are present *)
